@@ -153,6 +153,20 @@ def lib(with_numpy=False):
     return ns
 
 
+_SC = None
+
+
+def is_synced(x):
+    """Is x a node of a synced collection?  Decided by the PUBLIC base class, not by private names."""
+    global _SC
+    if _SC is None:
+        mod = sys.modules.get("synced_collections")
+        if mod is None:
+            return False
+        _SC = getattr(mod, "SyncedCollection", None)
+    return _SC is not None and isinstance(x, _SC)
+
+
 def default_capacity(clsname):
     return lib().default_capacity.get(clsname)
 
